@@ -204,7 +204,7 @@ class Body:
             elif k == 16 and depth > 0:
                 out.append(f"return {self.expr(env, self.sig.ret)}" if self.sig.ret != "None" else "return")
                 jumped = True
-            elif k == 17 and depth < 2 and len(self.nested) < 2:
+            elif k in (17, 23) and depth < 2 and len(self.nested) < 2:
                 out += self.nested_fn(env)
             elif k == 18:
                 c = self.call(env, ch.pick(SCALARS, "cty"), 0)
@@ -434,6 +434,11 @@ class ProgGen:
             src += ["@guppy.comptime", f"def {prefix}ct(x: int) -> int:"] + ind(body + ["return acc"]) + [""]
             defs.append(f"{prefix}ct")
             sigs.append(FnSig(f"{prefix}ct", [("x", "int")], "int", "comptime"))
+        if ch.draw(2, "fam_inthelper") == 0:
+            # a plain int -> int helper: the shape nested functions may shadow
+            src += ["@guppy", f"def {prefix}ih(x: int) -> int:", f"    return x + {ch.draw(5, 'ih_c')}", ""]
+            defs.append(f"{prefix}ih")
+            sigs.append(FnSig(f"{prefix}ih", [("x", "int")], "int", "fn"))
         n_funcs = n_funcs if n_funcs is not None else ch.rng_int(1, 4, "n_funcs")
         bad_fn = ch.draw(n_funcs + 1, "mistake_fn") if mistake else -1
         for fi in range(n_funcs):
